@@ -46,6 +46,7 @@ class Session:
         self.eof = False
         self.stdin_open = True
         self.broken_pipe = False
+        self.stalled = False
         self.rc = None
 
     # ---------------------------------------------------------------- low level
@@ -166,11 +167,18 @@ class Session:
                     os.sched_yield()
         return True
 
-    def wait_replies(self, n):
-        """block until at least n replies have been parsed, or the daemon closed its output"""
+    def wait_replies(self, n, patience=None):
+        """block until at least n replies have been parsed, or the daemon closed its output, or
+        (with patience) nothing arrived for that many seconds: then self.stalled is set and the
+        caller should stop waiting in lock step (write the rest, close, judge what came back)"""
+        last = time.time()
         while len(self.replies) < n and not self.eof:
             self._check_deadline()
-            self._pump(0.05)
+            if self._pump(0.05):
+                last = time.time()
+            elif patience is not None and time.time() - last > patience:
+                self.stalled = True
+                return False
         return len(self.replies) >= n
 
     def finish(self):
